@@ -1,6 +1,8 @@
 mod cache_manager;
 mod disk;
 pub mod error;
+#[cfg(xet_verif)]
+pub mod verif;
 
 use std::path::PathBuf;
 use std::sync::Arc;
